@@ -10,8 +10,10 @@ FORMATS_N = ["nonneg", "even"]
 
 
 class Gen:
-    def __init__(self, seed):
+    def __init__(self, seed, schemaable=0.0):
         self.r = random.Random(seed)
+        self.schemaable = schemaable      # probability of avoiding leaves JSON Schema cannot express
+
 
     # ------------------------------------------------------------ primitives
     def num(self):
@@ -84,6 +86,8 @@ class Gen:
     def leaf(self):
         r = self.r
         k = r.random()
+        if 0.66 <= k < 0.77 and r.random() < self.schemaable:
+            k = r.random() * 0.6
         if k < 0.30: return ("Typeof", r.choice(["string", "number", "boolean"]))
         if k < 0.36: return ("Any",)
         if k < 0.42: return ("Nullish", r.choice(["null", "undefined", "void"]))
@@ -154,6 +158,7 @@ class Gen:
                 else: ms.append(self.rt(depth - 1, names))
             return ("AllOf", ms)
         if k < 0.87: return self.disc_rt(depth, names)
+        if 0.87 <= k < 0.93 and r.random() < self.schemaable: return self.object_rt(depth, names)
         if k < 0.90: return ("Map", self.rt(depth - 1, names), self.rt(depth - 1, names))
         if k < 0.93: return ("Set", self.rt(depth - 1, names))
         if k < 0.96 and names: return ("Ref", r.choice(names))
